@@ -19,13 +19,17 @@ from datetime import datetime
 from . import core
 
 TMP = "/tmp/c15"
+PID = os.getpid()
+F_CASE = "case_%d.biom" % PID
+F_CASE_H5 = "case_h5_%d.biom" % PID
+F_BASE_H5 = "base_h5_%d.biom" % PID
 VOCAB = [t for t in core.TYPES if t is not None]
 KEYS = ["id", "format", "format_url", "matrix_type", "generated_by", "date", "type",
         "matrix_element_type", "shape", "data", "rows", "columns"]
 DATE_FORMATS = ["%Y-%m-%d", "%Y-%m-%dT%H:%M", "%Y-%m-%dT%H:%M:%S", "%Y-%m-%dT%H:%M:%S.%f"]
-# HDF5 mutation classes the validator is known not to look at (F-C15-2)
+# HDF5 mutation classes the validator is known not to look at (known findings F-C15-1..6)
 H5_PASS_CLASSES = ("index-out-of-range", "index-negative", "data-elem-type", "indices-elem-type",
-                   "blank-id", "dup-id", "missing-md-group")
+                   "blank-id", "dup-id")
 
 
 # ----------------------------------------------------------------------------- oracles / encoders
@@ -252,7 +256,7 @@ def json_case(ctx, case, base_doc, muts, doc=None, text=None, is_base=False, tag
         doc = base_doc
         for m in muts:
             doc = j_apply(m, doc)
-    path = os.path.join(TMP, "case.biom")
+    path = os.path.join(TMP, F_CASE)
     with open(path, "w") as f:
         f.write(text if text is not None else json.dumps(doc))
     verdict, nlines = real_validate(path)
@@ -437,6 +441,11 @@ def h_apply(m, path):
             if p in f:
                 del f[p]
                 f.create_dataset(p, data=np.int64(0))
+        elif k == "resizeDataset":
+            p = "/".join(m["p"])
+            if p in f and isinstance(f[p], h5py.Dataset):
+                del f[p]
+                f.create_dataset(p, data=np.zeros(m["k"], dtype=np.float64))
         else:
             raise ValueError(k)
 
@@ -457,6 +466,8 @@ def h5_class(m, n, mm):
     if k in ("deleteNode", "renameNode") and m["p"] in ([a, b] for a in ("observation", "sample")
                                                           for b in ("metadata", "group-metadata")):
         return "missing-md-group"
+    if k == "resizeDataset":
+        return "md-length"
     return k
 
 
@@ -505,11 +516,15 @@ def h5_mutations(tree, n, m):
         out.append({"m": "dropLastId", "ax": ax})
         for g in ("metadata", "group-metadata", "matrix"):
             out.append({"m": "groupToDataset", "p": [ax, g]})
+        for p in paths:
+            if len(p) == 3 and p[0] == ax and p[1] == "metadata":
+                out.append({"m": "resizeDataset", "p": p, "k": cnt + 1})
+                out.append({"m": "resizeDataset", "p": p, "k": max(cnt - 1, 0)})
     return out
 
 
 def h5_case(ctx, case, base_path, base_tree, muts, n, m, is_base=False, tags=(), with_exit=False):
-    path = os.path.join(TMP, "case_h5.biom")
+    path = os.path.join(TMP, F_CASE_H5)
     shutil.copyfile(base_path, path)
     for mu in muts:
         h_apply(mu, path)
@@ -592,13 +607,34 @@ def fixed_corpus(ctx):
               with_exit=True, written_from=ALL_ZERO_SPEC)
 
 
+MD_SPEC = {"obs": ["a", "b"], "samp": ["x", "y", "z"], "rows": [[1.0, 0.0, 2.0], [0.0, 3.5, 0.0]],
+           "omd": [{"taxonomy": ["k__A", "p__x"]}, {"taxonomy": ["k__B", "p__y"]}],
+           "smd": [{"grp": "a"}, {"grp": "b"}, {"grp": "c"}], "type": "OTU table"}
+
+
+def fixed_corpus_h5(ctx):
+    # repaired defect dd41daf0: a failed per-version metadata check (missing metadata group, category of
+    # the wrong length, version mismatch) left valid_table True
+    bp = os.path.join(TMP, F_BASE_H5)
+    write_h5(MD_SPEC, "dense", bp)
+    tree, _ = observe_h5(bp)
+    for mu in ({"m": "deleteNode", "p": ["observation", "metadata"]},
+               {"m": "deleteNode", "p": ["sample", "group-metadata"]},
+               {"m": "resizeDataset", "p": ["observation", "metadata", "taxonomy"], "k": 3},
+               {"m": "setAttr", "k": "format-version", "v": {"t": "ints", "v": [2, 0]}}):
+        case = {"fmt": "hdf5", "spec": MD_SPEC, "route": "dense", "muts": [mu],
+                "corpus": "metadata check ignored (fixed dd41daf0)"}
+        ctx.case(case)
+        h5_case(ctx, case, bp, tree, [mu], 2, 3, tags=("corpus", "md-check"), with_exit=True)
+
+
 # ----------------------------------------------------------------------------- run
 def run(ctx):
     os.makedirs(TMP, exist_ok=True)
     try:
         _run(ctx)
     finally:
-        for fn in ("case.biom", "case_h5.biom", "base_h5.biom"):
+        for fn in (F_CASE, F_CASE_H5, F_BASE_H5):
             try:
                 os.remove(os.path.join(TMP, fn))
             except OSError:
@@ -618,6 +654,7 @@ def _run(ctx):
     ctx.assumptions = ["format_version argument left at its default (JSON 1.0.0, HDF5 2.1)",
                        "top-level JSON value is an object; NaN/Infinity literals not generated"]
     fixed_corpus(ctx)
+    fixed_corpus_h5(ctx)
 
     exact = ("count", "smallcount", "dyadic", "neg")
     # ---- written files are valid and load back (all value classes, all routes)
@@ -676,7 +713,7 @@ def _run(ctx):
             ctx.notes.append("JSON: every ordered double mutation of 3 bases enumerated")
 
     # ---- HDF5: written files valid; fault enumeration
-    base_path = os.path.join(TMP, "base_h5.biom")
+    base_path = os.path.join(TMP, F_BASE_H5)
     n_hw = 25 if quick else 300
     for i in range(n_hw):
         spec = gen_base_spec(rng, core.VALUE_CLASSES, max_n=6, max_m=6)
@@ -698,7 +735,7 @@ def _run(ctx):
         if b % 2 == 1:
             spec["omd"] = core.gen_md(rng, spec["obs"], "tax")
             spec["smd"] = core.gen_md(rng, spec["samp"], "text")
-        bp = os.path.join(TMP, "base_h5_%d.biom" % b)
+        bp = os.path.join(TMP, "base_h5_%d_%d.biom" % (PID, b))
         write_h5(spec, "dense", bp)
         tree, _ = observe_h5(bp)
         n, m = len(spec["obs"]), len(spec["samp"])
@@ -754,13 +791,13 @@ def replay(ctx, rec):
                 json_case(ctx, case, doc, case["muts"], text=None if case["muts"] else text,
                           is_base=not case["muts"], tags=("replay",))
         else:
-            bp = os.path.join(TMP, "base_h5.biom")
+            bp = os.path.join(TMP, F_BASE_H5)
             write_h5(case["spec"], case.get("route", "dense"), bp, compress=case.get("compress", True))
             tree, _ = observe_h5(bp)
             h5_case(ctx, case, bp, tree, case["muts"], len(case["spec"]["obs"]), len(case["spec"]["samp"]),
                     is_base=not case["muts"], tags=("replay",))
     finally:
-        for fn in ("case.biom", "case_h5.biom", "base_h5.biom"):
+        for fn in (F_CASE, F_CASE_H5, F_BASE_H5):
             try:
                 os.remove(os.path.join(TMP, fn))
             except OSError:
